@@ -260,3 +260,117 @@ def with_layout(rng, arr, layout):
         a.flags.writeable = False
         return a
     return arr
+
+
+# ---- round-5 additions: dtype spellings, block-boundary shapes, representability values -------------
+SPELLINGS = {
+    "float64": [float, "float64", "f8", "d", np.float64, np.dtype("float64"), np.double, "double", "<f8", "float", "=f8"],
+    "float32": [np.float32, "float32", "f4", "f", np.single, np.dtype("float32"), "single", "<f4"],
+    "int16": [np.int16, "int16", "i2", "h", np.dtype("int16"), np.short, "short", "<i2"],
+    "int8": [np.int8, "int8", "i1", "b", np.dtype("int8"), np.byte, "byte", "|i1"],
+}
+ALL_SPELLINGS = [(t, sp) for t in ("float64", "float32", "int16", "int8") for sp in SPELLINGS[t]]
+
+
+def spelling_repr(sp):
+    return "%s:%r" % (type(sp).__name__, sp) if not isinstance(sp, type) else "type:%s.%s" % (sp.__module__, sp.__name__)
+
+
+def _block_boundary_shapes():
+    """sorted shapes (a<=b<=c<=48) whose voxel count is 2**k-1, 2**k, 2**k+1 (k=6..16) or, where no such shape exists, the
+    nearest counts on either side of 2**k; plus the largest volumes of the quantifier."""
+    by_n = {}
+    for a in range(1, HI + 1):
+        for b in range(a, HI + 1):
+            for c in range(b, HI + 1):
+                by_n.setdefault(a * b * c, []).append((a, b, c))
+    counts = sorted(by_n)
+    pool = []
+    for k in range(6, 17):
+        t = 2 ** k
+        for n in (t - 1, t, t + 1):
+            pool += by_n.get(n, [])
+        above = [n for n in counts if n > t + 1][:2]
+        below = [n for n in counts if n < t - 1][-2:]
+        for n in above + below:
+            if abs(n - t) <= max(8, t // 256):
+                pool += by_n[n][:3]
+    pool += [(HI, HI, HI), (HI - 1, HI, HI), (HI - 1, HI - 1, HI), (1, HI, HI), (1, 1, HI), (2, HI, HI), (31, 32, 33), (15, 16, 17),
+             (7, 8, 9), (33, 33, 33), (17, 32, 47), (16, 32, 48), (32, 33, 48)]
+    seen, out = set(), []
+    for sh in pool:
+        if sh not in seen:
+            seen.add(sh)
+            out.append(sh)
+    return out
+
+
+BLOCK_SHAPES = _block_boundary_shapes()
+
+F32MAX = float(np.finfo(np.float32).max)
+_f32 = np.float32
+REPR_F64 = np.array([
+    F32MAX, float(np.nextafter(_f32(F32MAX), _f32(0))), float(np.nextafter(np.nextafter(_f32(F32MAX), _f32(0)), _f32(0))),
+    -F32MAX, F32MAX * (1 + 1e-9), float(np.nextafter(F32MAX, np.inf)), 3.4028235677973366e38 * (1 - 1e-12),    # still round to FLT_MAX
+    3.4028235677973366e38, 3.402824e38, -3.5e38,                                                              # tie / beyond: inf
+    1.0 + 2.0 ** -24, float(np.nextafter(1.0 + 2.0 ** -24, 2.0)), float(np.nextafter(1.0 + 2.0 ** -24, 0.0)),    # tie to even, +-1 ulp(f64)
+    1.0 + 3 * 2.0 ** -24, 1.0 + 3 * 2.0 ** -24 - 1e-9 * 2.0 ** -24, 0.5 - 2.0 ** -26, float(np.nextafter(0.5, 0.0)),
+    2.0 ** 24, 2.0 ** 24 + 1, 2.0 ** 24 + 2, 2.0 ** 24 + 3, 2.0 ** 31, 2.0 ** 31 - 1, 2.0 ** 31 + 129, 2.0 ** 53, 2.0 ** 53 + 2, -(2.0 ** 53) + 1,
+    100001.0, 100002.0, 100001.5, 100000.00390625, 100000.005, 1e5 + 1e-3, 131071.9960937,
+    2.0 ** -149, 2.0 ** -150, float(np.nextafter(2.0 ** -150, 1.0)), 2.0 ** -151, 3 * 2.0 ** -150, 1.1754943508222875e-38,
+    float(np.nextafter(1.1754943508222875e-38, 0.0)), 1.1754942106924411e-38, -(2.0 ** -149), 1e-45, 7e-46,
+    3e-06, 1e16, 0.5, 5.0, 1e5, 3.0, 1e-9, 5e-7, 0.1, -0.0])
+REPR_F32 = np.array([F32MAX, np.nextafter(_f32(F32MAX), _f32(0)), np.nextafter(np.nextafter(_f32(F32MAX), _f32(0)), _f32(0)), -F32MAX,
+                     2.0 ** 24, 2.0 ** 24 - 1, 2.0 ** 24 + 2, 2.0 ** 31, 100001.0, 100002.0, 100000.0078125, 2.0 ** -149, -(2.0 ** -149),
+                     2.0 ** -148, 1.1754943508222875e-38, 1.1754942106924411e-38, np.nextafter(_f32(1), _f32(2)), np.nextafter(_f32(1), _f32(0)),
+                     np.nextafter(_f32(0.5), _f32(0)), 3e-06, 1e16, 0.5, -0.0, 16777215.0, 8388607.5, 8388608.0], dtype=np.float32)
+
+
+def plant(rng, arr, pool, frac=0.25):
+    """sprinkle values of `pool` (every one at least once if the array is big enough) into a copy of arr."""
+    a = np.array(arr, copy=True)
+    n = a.size
+    flat = a.reshape(-1)
+    with np.errstate(all="ignore"):
+        pool = np.asarray(pool).astype(a.dtype)
+    m = max(1, int(n * frac))
+    idx = rng.choice(n, size=min(n, m), replace=False)
+    flat[idx] = rng.choice(pool, size=idx.size)
+    k = min(n, pool.size)
+    flat[rng.choice(n, size=k, replace=False)] = rng.permutation(pool)[:k]
+    return flat.reshape(a.shape)
+
+
+def values_for_cast(rng, shape, src_dtype, target_dtype, hard=True):
+    """an array of src_dtype (indexed [x,y,z]) whose cast to target_dtype keeps every voxel (float->float: the stated
+    narrowing / exact widening).  hard=True plants representability-boundary values where the cast allows them."""
+    src, tgt = np.dtype(src_dtype), np.dtype(target_dtype)
+    if tgt.kind == "f":
+        if src.kind == "f":
+            a = make_values(rng, shape, src, "normal")
+            if hard:
+                a = plant(rng, a, REPR_F64 if src == np.float64 else REPR_F32)
+            return a
+        return make_values(rng, shape, src, "int_ext" if hard else "normal")
+    lo, hi = np.iinfo(tgt).min, np.iinfo(tgt).max
+    if src.kind == "i":
+        lo, hi = max(lo, np.iinfo(src).min), min(hi, np.iinfo(src).max)
+    a = np.asarray(rng.integers(lo + 1, hi + 1, size=shape))
+    if hard:
+        a = plant(rng, a, np.array([hi, lo + 1, lo, 0, -1, 1]), frac=0.1)
+    return np.ascontiguousarray(a).astype(src)
+
+
+def duplicate_slabs(rng, arr):
+    """copy with exact duplicates: some z-slices, y-rows and x-columns repeated verbatim (and two equal neighbours)."""
+    a = np.array(arr, copy=True)
+    for ax in range(3):
+        n = a.shape[ax]
+        if n >= 2:
+            src = int(rng.integers(0, n))
+            for dst in rng.choice(n, size=min(n, 1 + n // 3), replace=False):
+                sl_d = [slice(None)] * 3
+                sl_s = [slice(None)] * 3
+                sl_d[ax], sl_s[ax] = int(dst), src
+                a[tuple(sl_d)] = a[tuple(sl_s)]
+    return a
